@@ -285,6 +285,14 @@ def sf_alive(I, fr, o):
     return Sym(z3.Select(I.alive(fr.heap), o.ref), "bool")
 
 
+def sf_is_new(I, fr, o):
+    """o (evaluated in the current state) did not exist in the pre-state: it was allocated by this call."""
+    new, old = heaps(fr)
+    if isinstance(o, SpecOpt):
+        o = o.value
+    return Sym(z3.Not(z3.Select(I.alive(old), o.ref)), "bool")
+
+
 def sf_local_epoch(I, fr, t):
     return Sym(L.local_epoch(iterm(I, t)), "int")
 
@@ -482,7 +490,7 @@ SPEC_GLOBALS = {
     "wlen": sf_wlen, "wat": sf_wat, "appended": sf_appended, "log_unchanged": sf_log_unchanged,
     "unchanged": sf_unchanged, "same_dict": sf_same_dict, "dict_only_at": sf_dict_only_at,
     "dom": sf_dom, "dom_eq_plus": sf_dom_eq_plus, "dom_eq_minus": sf_dom_eq_minus, "empty": sf_empty,
-    "max_key": sf_max_key, "alive": sf_alive, "local_epoch": sf_local_epoch, "proto_index": sf_proto_index,
+    "max_key": sf_max_key, "alive": sf_alive, "is_new": sf_is_new, "local_epoch": sf_local_epoch, "proto_index": sf_proto_index,
     "round_float": sf_round_float, "intval": sf_intval, "intlit": sf_intlit,
     "True": True, "False": False, "None": None,
 }
